@@ -57,29 +57,48 @@ theorem indexZero_append (s r : Bytes) (h : NoZero s) : indexZero (s ++ 0 :: r) 
     rw [if_neg hc, ih h.tail]
     rfl
 
-theorem readParams_flatten (ps : List Bytes) (hps : ∀ p ∈ ps, p.length = 4) (pre post : Bytes)
-    (pos : Nat) (hpos : pos = pre.length) :
-    readParams (pre ++ ps.flatten ++ post) ps.length pos = .ok ps := by
-  induction ps generalizing pre pos with
+/-! #### the integer conversions of utils.go under the regenerated facts -/
+
+theorem wrapSigned64_of_lt (n : Nat) (h : n < 2 ^ 63) : wrapSigned 64 (n : Int) = n := by
+  unfold wrapSigned
+  have h1 : (n : Int) % ((2 ^ 64 : Nat) : Int) = n := Int.emod_eq_of_lt (by omega) (by omega)
+  dsimp only
+  rw [h1, if_pos (by omega)]
+
+theorem goConv_int (v : Int) : goConv "int" v = wrapSigned 64 v := by
+  rw [goConv]
+  exact if_pos (Or.inl rfl)
+
+theorem goConvs_single (c : String) (n : Nat) : goConvs [c] n = goConv c (n : Int) := rfl
+
+theorem goConvs_nil (n : Nat) : goConvs [] n = n := rfl
+
+/-- `int(binary.BigEndian.UintN(x))` is the unsigned value (N ≤ 32; Go's `int` has 64 bits) -/
+theorem goConvs_int (n : Nat) (h : n < 2 ^ 63) : goConvs ["int"] n = n := by
+  rw [goConvs_single, goConv_int, wrapSigned64_of_lt n h]
+
+/-- **the count of a Parse message is read as an unsigned 16-bit integer**: with the conversion chain the source
+has now (`pgParamsNumToInt = ["int"]`), `numParams.ToInt()` is the big-endian value of the two bytes. This is the one
+place where the Parse theorems depend on the signedness of `paramsNum.ToInt`. -/
+theorem paramsCount_eq (b : Bytes) (h : beVal b < 2 ^ 63) : paramsCount b = beVal b := by
+  unfold paramsCount paramsNumToInt
+  have e : Generated.Wire.pgParamsNumToInt = ["int"] := rfl
+  rw [e, goConvs_int _ h]
+  rfl
+
+theorem readParams_flatten (ps : List Bytes) (hps : ∀ p ∈ ps, p.length = 4) (post : Bytes) :
+    readParams ps.length (ps.flatten ++ post) = .ok ps := by
+  induction ps with
   | nil => rfl
   | cons p ps ih =>
     have hp : p.length = 4 := hps p List.mem_cons_self
-    have e : pre ++ (p :: ps).flatten ++ post = pre ++ p ++ (ps.flatten ++ post) := by
-      simp [List.append_assoc]
-    have e' : pre ++ (p :: ps).flatten ++ post = (pre ++ p) ++ ps.flatten ++ post := by
-      simp [List.append_assoc]
-    have hs : chkSlice (pre ++ (p :: ps).flatten ++ post) pos (pos + 4) = .ok p := by
-      rw [e]
-      exact chkSlice_eq_of_goSlice_ok (goSlice_mid pre p _ pos (pos + 4) hpos (by omega))
-    have hr : readParams (pre ++ (p :: ps).flatten ++ post) ps.length (pos + 4) = .ok ps := by
-      rw [e']
-      exact ih (fun q hq => hps q (List.mem_cons_of_mem _ hq)) (pre ++ p) (pos + 4)
-        (by rw [List.length_append]; omega)
-    rw [List.length_cons]
+    obtain ⟨a, b, c, d, rfl⟩ : ∃ a b c d, p = [a, b, c, d] := by
+      match p, hp with
+      | [a, b, c, d], _ => exact ⟨a, b, c, d, rfl⟩
+    have ih' := ih (fun q hq => hps q (List.mem_cons_of_mem _ hq))
+    show readParams (ps.length + 1) (a :: b :: c :: d :: (ps.flatten ++ post)) = _
     unfold readParams
-    rw [hs]
-    simp only [Out.bind_ok]
-    rw [hr]
+    rw [ih']
     rfl
 
 theorem encodeParse_length (name query : Bytes) (oids : List Nat) :
@@ -130,19 +149,23 @@ theorem newParsePacket_encodeParse (name query : Bytes) (oids : List Nat) (hn : 
       (query.length + (name.length + 1) + 1 + 2) = .ok (beBytes 2 oids.length) := by
     rw [e4]
     exact chkSlice_eq_of_goSlice_ok (goSlice_mid _ _ _ _ _ (by simp; omega) (by simp; omega))
-  have hpar : readParams (encodeParse name query oids) oids.length
-      (query.length + (name.length + 1) + 1 + 2) = .ok (oids.map (beBytes 4)) := by
-    rw [e5]
+  have hdrop2 : (encodeParse name query oids).drop (query.length + (name.length + 1) + 1 + 2) =
+      (oids.map (beBytes 4)).flatten ++ [] := by
+    rw [e5, List.append_assoc]
+    exact List.drop_left' (by simp; omega)
+  have hpar : readParams oids.length ((encodeParse name query oids).drop
+      (query.length + (name.length + 1) + 1 + 2)) = .ok (oids.map (beBytes 4)) := by
+    rw [hdrop2]
     have := readParams_flatten (oids.map (beBytes 4)) (by
         intro p hp
         obtain ⟨o, _, rfl⟩ := List.mem_map.mp hp
-        exact beBytes_length _ _)
-      (name ++ [0] ++ (query ++ [0]) ++ beBytes 2 oids.length) []
-      (query.length + (name.length + 1) + 1 + 2) (by simp; omega)
+        exact beBytes_length _ _) []
     rwa [List.length_map] at this
+  have hcnt : paramsCount (beBytes 2 oids.length) = oids.length := by
+    rw [paramsCount_eq _ (by rw [beVal_beBytes2 _ hl]; omega), beVal_beBytes2 _ hl]
   unfold newParsePacket
   rw [hi0]
-  simp only [hdrop, hi1, hname, hquery, hnum, Out.bind_ok, beVal_beBytes2 _ hl]
+  simp only [hdrop, hi1, hname, hquery, hnum, Out.bind_ok, hcnt]
   by_cases hc : query.length + (name.length + 1) + 1 + 2 < (encodeParse name query oids).length
   · rw [if_pos hc, hpar]
     rfl
@@ -193,29 +216,125 @@ theorem replaceParseQuery_marshal (name query q lb : Bytes) (oids : List Nat) (h
   ⟨_, replaceParseQuery_wellformed name query q lb oids hn hq hl ho hq' hsz,
     marshal_encodeMsg 80 _ (by decide)⟩
 
-theorem range_decode_be4 (oids : List Nat) (ho : ∀ o ∈ oids, o < 2^32) :
-    (List.range oids.length).map
-      (fun k => beVal (((oids.map (beBytes 4)).flatten.drop (4 * k)).take 4)) = oids := by
+theorem mapIdx_oids (oids : List Nat) (sel : Nat → Bool) (b : Nat) :
+    (oids.map (beBytes 4)).mapIdx (fun i x => if sel i then beBytes 4 b else x) =
+    (setParseOids oids sel b).map (beBytes 4) := by
+  apply List.ext_getElem?
+  intro i
+  simp only [setParseOids, List.getElem?_mapIdx, List.getElem?_map]
+  cases oids[i]? with
+  | none => rfl
+  | some o => simp only [Option.map_some]; split <;> rfl
+
+theorem setParseOids_length (oids : List Nat) (sel : Nat → Bool) (b : Nat) :
+    (setParseOids oids sel b).length = oids.length := by
+  simp [setParseOids]
+
+theorem setParseOids_lt (oids : List Nat) (sel : Nat → Bool) (b : Nat) (ho : ∀ o ∈ oids, o < 2^32)
+    (hb : b < 2^32) : ∀ o ∈ setParseOids oids sel b, o < 2^32 := by
+  intro o hm
+  obtain ⟨i, hi, rfl⟩ := List.getElem_of_mem hm
+  simp only [setParseOids, List.getElem_mapIdx]
+  split
+  · exact hb
+  · exact ho _ (List.getElem_mem _)
+
+theorem setParseOids_getElem? (oids : List Nat) (sel : Nat → Bool) (b i o : Nat) (h : oids[i]? = some o) :
+    (setParseOids oids sel b)[i]? = some (if sel i then b else o) := by
+  simp [setParseOids, List.getElem?_mapIdx, h]
+
+/-- 4b. **rewrite_wellformed for Parse, parameter types**: `replaceOIDsInParsePackets` + `SetParsePacket` on a
+well-formed Parse message yields the specification encoding of the Parse message with the selected parameter types
+replaced (same name, same query, SAME NUMBER of parameter types – the declared count is the number of OIDs that
+follow) and the matching length field; when no parameter is selected the packet is untouched -/
+theorem replaceParseOids_wellformed (name query lb : Bytes) (oids : List Nat) (sel : Nat → Bool) (b : Nat)
+    (hn : NoZero name) (hq : NoZero query) (hl : oids.length < 2^16) (ho : ∀ o ∈ oids, o < 2^32)
+    (hsz : (encodeParse name query oids).length + 4 < 2^32) :
+    replaceParseOids ⟨80, lb, encodeParse name query oids⟩ sel b =
+      .ok (if (List.range oids.length).any sel
+        then ⟨80, beBytes 4 ((encodeParse name query (setParseOids oids sel b)).length + 4),
+              encodeParse name query (setParseOids oids sel b)⟩
+        else ⟨80, lb, encodeParse name query oids⟩) := by
+  have hm : (ParsePacket.marshal ⟨name ++ [0], query ++ [0], beBytes 2 oids.length,
+      (setParseOids oids sel b).map (beBytes 4)⟩) = encodeParse name query (setParseOids oids sel b) := by
+    simp [ParsePacket.marshal, encodeParse, List.append_assoc, setParseOids_length]
+  have hlen : (encodeParse name query (setParseOids oids sel b)).length = (encodeParse name query oids).length := by
+    rw [encodeParse_length, encodeParse_length, setParseOids_length]
+  unfold replaceParseOids
+  rw [newParsePacket_encodeParse name query oids hn hq hl ho, Out.bind_ok]
+  simp only [List.length_map, mapIdx_oids, hm]
+  split
+  · unfold packetLength
+    rw [lenSize_eq, Nat.mod_eq_of_lt (by rw [hlen]; exact hsz)]
+    rfl
+  · rfl
+
+theorem setParseOids_none (oids : List Nat) (sel : Nat → Bool) (b : Nat)
+    (h : (List.range oids.length).any sel = false) : setParseOids oids sel b = oids := by
+  apply List.ext_getElem?
+  intro i
+  simp only [setParseOids, List.getElem?_mapIdx]
+  cases hi : oids[i]? with
+  | none => rfl
+  | some o =>
+    have hlt : i < oids.length := by
+      rcases Nat.lt_or_ge i oids.length with h1 | h1
+      · exact h1
+      · rw [List.getElem?_eq_none h1] at hi; cases hi
+    have hs : sel i = false := by
+      cases hsi : sel i with
+      | false => rfl
+      | true =>
+        have : (List.range oids.length).any sel = true :=
+          List.any_eq_true.mpr ⟨i, List.mem_range.mpr hlt, hsi⟩
+        rw [h] at this; cases this
+    simp [hs]
+
+/-- 4c. **the Parse message as the proxy forwards it**: query text replaced by the observers and/or parameter types
+replaced – always the specification encoding of (same name, new-or-same query, re-typed-or-same OIDs) with the length
+field of the bytes that follow; untouched when nothing was replaced -/
+theorem handleParse_wellformed (name query lb : Bytes) (oids : List Nat) (q : Option Bytes) (sel : Nat → Bool)
+    (b : Nat) (hn : NoZero name) (hq : NoZero query) (hl : oids.length < 2^16) (ho : ∀ o ∈ oids, o < 2^32)
+    (hq' : ∀ x, q = some x → NoZero x)
+    (hsz : (encodeParse name (q.getD query) oids).length + 4 < 2^32) :
+    handleParse ⟨80, lb, encodeParse name query oids⟩ q sel b =
+      .ok (if q.isSome || (List.range oids.length).any sel
+        then ⟨80, beBytes 4 ((encodeParse name (q.getD query) (setParseOids oids sel b)).length + 4),
+              encodeParse name (q.getD query) (setParseOids oids sel b)⟩
+        else ⟨80, lb, encodeParse name query oids⟩) := by
+  unfold handleParse
+  cases q with
+  | none =>
+    simp only [Option.getD_none] at hsz
+    rw [Out.bind_ok, replaceParseOids_wellformed name query lb oids sel b hn hq hl ho hsz]
+    simp
+  | some t =>
+    simp only [Option.getD_some] at hsz
+    simp only [Option.getD_some, Option.isSome_some, Bool.true_or, if_true]
+    rw [replaceParseQuery_wellformed name query t lb oids hn hq hl ho (hq' t rfl) hsz, Out.bind_ok,
+      replaceParseOids_wellformed name t _ oids sel b hn (hq' t rfl) hl ho hsz]
+    cases hs : (List.range oids.length).any sel with
+    | true => rfl
+    | false => simp [setParseOids_none oids sel b hs]
+
+theorem decodeOids_encode (oids : List Nat) (ho : ∀ o ∈ oids, o < 2^32) :
+    decodeOids oids.length ((oids.map (beBytes 4)).flatten) = some oids := by
   induction oids with
   | nil => rfl
   | cons o os ih =>
     have ih' := ih (fun x hx => ho x (List.mem_cons_of_mem _ hx))
-    have h0 : beVal ((((o :: os).map (beBytes 4)).flatten.drop (4 * 0)).take 4) = o := by
-      simp only [Nat.mul_zero, List.drop_zero, List.map_cons, List.flatten_cons]
-      rw [List.take_left' (beBytes_length _ _), beVal_beBytes4 _ (ho o List.mem_cons_self)]
-    have ht : ∀ k, ((((o :: os).map (beBytes 4)).flatten.drop (4 * (k + 1))).take 4) =
-        ((os.map (beBytes 4)).flatten.drop (4 * k)).take 4 := by
-      intro k
-      rw [List.map_cons, List.flatten_cons, show 4 * (k + 1) = 4 + 4 * k by omega, ← List.drop_drop,
-        List.drop_left' (beBytes_length _ _)]
-    rw [List.length_cons, List.range_succ_eq_map, List.map_cons, List.map_map]
-    have hc : ∀ (a b : Nat) (l m : List Nat), a = b → l = m → a :: l = b :: m := by
-      intro a b l m h1 h2; rw [h1, h2]
-    refine hc _ _ _ _ h0 (Eq.trans ?_ ih')
-    apply List.map_congr_left
-    intro k _
-    simp only [Function.comp]
-    rw [ht]
+    have hv := beVal_beBytes4 o (ho o List.mem_cons_self)
+    obtain ⟨a, b, c, d, he⟩ : ∃ a b c d, beBytes 4 o = [a, b, c, d] := by
+      have hlen := beBytes_length 4 o
+      match beBytes 4 o, hlen with
+      | [a, b, c, d], _ => exact ⟨a, b, c, d, rfl⟩
+    rw [he] at hv
+    show decodeOids (os.length + 1) ((beBytes 4 o) ++ (os.map (beBytes 4)).flatten) = _
+    rw [he]
+    show decodeOids (os.length + 1) (a :: b :: c :: d :: (os.map (beBytes 4)).flatten) = _
+    unfold decodeOids
+    rw [ih', hv]
+    rfl
 
 /-- 5. round trip of the specification codec -/
 theorem decodeParse_encodeParse (name query : Bytes) (oids : List Nat) (hn : NoZero name)
@@ -249,8 +368,8 @@ theorem decodeParse_encodeParse (name query : Bytes) (oids : List Nat) (hn : NoZ
   rw [if_neg (by simp [List.length_append])]
   rw [List.take_left' (beBytes_length _ _), List.drop_left' (beBytes_length _ _),
     beVal_beBytes2 _ hl]
-  rw [if_neg (by rw [flatten_be4_length]; simp)]
-  rw [range_decode_be4 oids ho]
+  rw [decodeOids_encode oids ho]
+  rfl
 
 /-! ### Bind: reading -/
 
@@ -262,6 +381,36 @@ theorem readString_append (s r : Bytes) (h : NoZero s) : readString (s ++ 0 :: r
   unfold readString
   rw [indexZero_append s r h]
   simp only [h1, h2]
+
+theorem beVal_lt (b : Bytes) : beVal b < 256 ^ b.length := by
+  unfold beVal
+  have := leVal_lt b.reverse
+  rwa [List.length_reverse] at this
+
+theorem beVal_lt_of_le (b : Bytes) (k : Nat) (h : b.length ≤ k) (hk : k ≤ 7) : beVal b < 2 ^ 63 := by
+  have h1 := beVal_lt b
+  have h2 : 256 ^ b.length ≤ 256 ^ 7 := Nat.pow_le_pow_right (by decide) (by omega)
+  have h3 : (256 : Nat) ^ 7 < 2 ^ 63 := by decide
+  omega
+
+/-- the counts of `readUint16Array` / `readParameterArray` and the value length of `readParameterArray` are read with
+`int(binary.BigEndian.UintN(…))` – unsigned (regenerated `pgIntReads`) -/
+theorem countConv_u16arr (b : Bytes) (h : beVal b < 2 ^ 63) :
+    countConv Generated.Wire.pgU16ArrayCountConv b = beVal b := by
+  unfold countConv
+  have e : Generated.Wire.pgU16ArrayCountConv = ["int"] := rfl
+  rw [e, goConvs_int _ h]
+
+theorem countConv_params (b : Bytes) (h : beVal b < 2 ^ 63) :
+    countConv Generated.Wire.pgParamArrayCountConv b = beVal b := by
+  unfold countConv
+  have e : Generated.Wire.pgParamArrayCountConv = ["int"] := rfl
+  rw [e, goConvs_int _ h]
+
+theorem lenConv_eq (b : Bytes) (h : beVal b < 2 ^ 63) : lenConv b = beVal b := by
+  unfold lenConv
+  have e : Generated.Wire.pgParamArrayLenConv = ["int"] := rfl
+  rw [e, goConvs_int _ h]
 
 theorem readU16s_encode (fs : List Nat) (rest : Bytes) (hf : ∀ f ∈ fs, f < 2^16) :
     readU16s fs.length ((fs.map (beBytes 2)).flatten ++ rest) = fs := by
@@ -278,12 +427,13 @@ theorem readUint16Array_encode (fs : List Nat) (rest : Bytes) (hl : fs.length < 
     readUint16Array (beBytes 2 fs.length ++ ((fs.map (beBytes 2)).flatten ++ rest)) = .ok (fs, rest) := by
   have hd : ((fs.map (beBytes 2)).flatten ++ rest).drop (2 * fs.length) = rest :=
     List.drop_left' (flatten_be2_length fs)
+  have hc : countConv Generated.Wire.pgU16ArrayCountConv (beBytes 2 fs.length) = (fs.length : Int) := by
+    rw [countConv_u16arr _ (by rw [beVal_beBytes2 _ hl]; omega), beVal_beBytes2 _ hl]
   unfold readUint16Array
   rw [if_neg (by simp [List.length_append])]
-  simp only [List.take_left' (beBytes_length 2 fs.length), List.drop_left' (beBytes_length 2 fs.length),
-    beVal_beBytes2 _ hl]
-  rw [if_neg (by rw [List.length_append, flatten_be2_length]; omega)]
-  rw [readU16s_encode fs rest hf, hd]
+  simp only [List.take_left' (beBytes_length 2 fs.length), List.drop_left' (beBytes_length 2 fs.length), hc]
+  rw [if_neg (by rw [List.length_append, flatten_be2_length]; omega), if_neg (by omega)]
+  rw [Int.toNat_natCast, readU16s_encode fs rest hf, hd]
 
 theorem readParamsArr_encode (pv : List (Option Bytes)) (rest : Bytes)
     (hb : ∀ b, some b ∈ pv → b.length < 2^32 - 1) :
@@ -296,19 +446,23 @@ theorem readParamsArr_encode (pv : List (Option Bytes)) (rest : Bytes)
     cases v with
     | none =>
       show readParamsArr (pv.length + 1) (beBytes 4 0xFFFFFFFF ++ _) = _
+      have hc : lenConv (beBytes 4 0xFFFFFFFF) = 0xFFFFFFFF := by
+        rw [lenConv_eq _ (by rw [beVal_beBytes4 _ (by omega)]; omega), beVal_beBytes4 _ (by omega)]
+        rfl
       simp only [readParamsArr]
       rw [if_neg (by simp [List.length_append])]
-      rw [List.take_left' (beBytes_length _ _), List.drop_left' (beBytes_length _ _),
-        beVal_beBytes4 _ (by omega), if_pos rfl, ih']
+      rw [List.take_left' (beBytes_length _ _), List.drop_left' (beBytes_length _ _), hc, if_pos rfl, ih']
       rfl
     | some b =>
       have hbl := hb b List.mem_cons_self
       show readParamsArr (pv.length + 1) ((beBytes 4 b.length ++ b) ++ _) = _
+      have hc : lenConv (beBytes 4 b.length) = (b.length : Int) := by
+        rw [lenConv_eq _ (by rw [beVal_beBytes4 _ (by omega)]; omega), beVal_beBytes4 _ (by omega)]
       rw [List.append_assoc]
       simp only [readParamsArr]
       rw [if_neg (by simp [List.length_append])]
-      rw [List.take_left' (beBytes_length _ _), List.drop_left' (beBytes_length _ _),
-        beVal_beBytes4 _ (by omega), if_neg (by omega), if_neg (by simp [List.length_append]),
+      rw [List.take_left' (beBytes_length _ _), List.drop_left' (beBytes_length _ _), hc,
+        if_neg (by omega), if_neg (by simp [List.length_append]; omega), if_neg (by omega), Int.toNat_natCast,
         List.take_left' rfl, List.drop_left' rfl, ih']
       rfl
 
@@ -316,10 +470,12 @@ theorem readParameterArray_encode (pv : List (Option Bytes)) (rest : Bytes) (hl 
     (hb : ∀ b, some b ∈ pv → b.length < 2^32 - 1) :
     readParameterArray (beBytes 2 pv.length ++ ((pv.map writeParam).flatten ++ rest)) =
       .ok (pv, rest) := by
+  have hc : countConv Generated.Wire.pgParamArrayCountConv (beBytes 2 pv.length) = (pv.length : Int) := by
+    rw [countConv_params _ (by rw [beVal_beBytes2 _ hl]; omega), beVal_beBytes2 _ hl]
   unfold readParameterArray
   rw [if_neg (by simp [List.length_append])]
-  rw [List.take_left' (beBytes_length _ _), List.drop_left' (beBytes_length _ _),
-    beVal_beBytes2 _ hl, readParamsArr_encode pv rest hb]
+  simp only [List.take_left' (beBytes_length _ _), List.drop_left' (beBytes_length _ _), hc]
+  rw [if_neg (by omega), Int.toNat_natCast, readParamsArr_encode pv rest hb]
 
 theorem encodeBind_eq (portal stmt : Bytes) (pf : List Nat) (pv : List (Option Bytes)) (rf : List Nat) :
     encodeBind portal stmt pf pv rf =
@@ -336,15 +492,16 @@ theorem newBindPacket_encodeBind (portal stmt : Bytes) (pf : List Nat) (pv : Lis
     newBindPacket (encodeBind portal stmt pf pv rf) = .ok ⟨portal, stmt, pf, pv, rf⟩ := by
   rw [encodeBind_eq]
   unfold newBindPacket
-  rw [readString_append _ _ hp]
-  simp only [Out.bind_ok]
-  rw [readString_append _ _ hs]
-  simp only [Out.bind_ok]
-  rw [readUint16Array_encode pf _ hpf.1 hpf.2]
-  simp only [Out.bind_ok]
-  rw [readParameterArray_encode pv _ hpv.1 hpv.2]
-  simp only [Out.bind_ok]
-  rw [readUint16Array_encode rf _ hrf.1 hrf.2]
+  -- (`rw`, not `simp only`: a definitional step here makes the kernel compare the unevaluated readers)
+  rw [readString_append _ _ hp, Out.bind_ok]
+  dsimp only
+  rw [readString_append _ _ hs, Out.bind_ok]
+  dsimp only
+  rw [readUint16Array_encode pf _ hpf.1 hpf.2, Out.bind_ok]
+  dsimp only
+  rw [readParameterArray_encode pv _ hpv.1 hpv.2, Out.bind_ok]
+  dsimp only
+  rw [readUint16Array_encode rf _ hrf.1 hrf.2, Out.bind_ok]
   rfl
 
 /-! ### Bind: marshalling -/
@@ -636,14 +793,15 @@ theorem chkSlice_no_panic (b : Bytes) (lo hi : Nat) : chkSlice b lo hi ≠ .pani
   unfold chkSlice
   cases h : goSlice b lo hi <;> simp
 
-theorem readParams_no_panic (data : Bytes) (k pos : Nat) : readParams data k pos ≠ .panic := by
-  induction k generalizing pos with
+theorem readParams_no_panic (k : Nat) (rest : Bytes) : readParams k rest ≠ .panic := by
+  induction k generalizing rest with
   | zero => simp [readParams]
   | succ k ih =>
-    unfold readParams
-    refine Out.bind_ne_panic (chkSlice_no_panic _ _ _) (fun p => ?_)
-    refine Out.bind_ne_panic (ih _) (fun r => ?_)
-    simp
+    match rest with
+    | a :: b :: c :: d :: r =>
+      unfold readParams
+      exact Out.bind_ne_panic (ih r) (fun ps => by simp)
+    | [] | [_] | [_, _] | [_, _, _] => simp [readParams]
 
 theorem indexZero_lt {data : Bytes} {i : Nat} (h : indexZero data = some i) : i < data.length := by
   induction data generalizing i with
@@ -676,7 +834,7 @@ theorem newParsePacket_no_panic (data : Bytes) : newParsePacket data ≠ .panic 
       simp only [Out.bind_ok]
       refine Out.bind_ne_panic (chkSlice_no_panic _ _ _) (fun np => ?_)
       split
-      · exact Out.bind_ne_panic (readParams_no_panic _ _ _) (fun ps => by simp)
+      · exact Out.bind_ne_panic (readParams_no_panic _ _) (fun ps => by simp)
       · simp
 
 theorem replaceParseQuery_no_panic (p : Packet) (q : Bytes) : replaceParseQuery p q ≠ .panic := by
@@ -687,35 +845,60 @@ theorem replaceParseQuery_no_panic (p : Packet) (q : Bytes) : replaceParseQuery 
   | err => simp
   | panic => exact absurd hc h
 
+theorem replaceParseOids_no_panic (p : Packet) (sel : Nat → Bool) (b : Nat) : replaceParseOids p sel b ≠ .panic := by
+  unfold replaceParseOids
+  refine Out.bind_ne_panic (newParsePacket_no_panic _) (fun pp => ?_)
+  split <;> simp
+
+theorem handleParse_no_panic (p : Packet) (q : Option Bytes) (sel : Nat → Bool) (b : Nat) :
+    handleParse p q sel b ≠ .panic := by
+  unfold handleParse
+  refine Out.bind_ne_panic ?_ (fun p1 => replaceParseOids_no_panic _ _ _)
+  cases q with
+  | none => simp
+  | some t => exact replaceParseQuery_no_panic p t
+
 theorem readString_no_panic (data : Bytes) : readString data ≠ .panic := by
   unfold readString
   split <;> simp
 
+theorem take_len_le (b : Bytes) (k : Nat) : (b.take k).length ≤ k := by
+  rw [List.length_take]; omega
+
 theorem readUint16Array_no_panic (data : Bytes) : readUint16Array data ≠ .panic := by
+  have hc := countConv_u16arr (data.take 2) (beVal_lt_of_le _ 2 (take_len_le _ _) (by decide))
   unfold readUint16Array
   split
   · simp
-  · simp only []
-    split <;> simp
+  · simp only [hc]
+    split
+    · simp
+    · rw [if_neg (by omega)]
+      simp
 
 theorem readParamsArr_no_panic (k : Nat) (s : Bytes) : readParamsArr k s ≠ .panic := by
   induction k generalizing s with
   | zero => simp [readParamsArr]
   | succ k ih =>
-    simp only [readParamsArr]
+    have hc := lenConv_eq (s.take 4) (beVal_lt_of_le _ 4 (take_len_le _ _) (by decide))
+    simp only [readParamsArr, hc]
     split
     · simp
     · split
       · exact Out.bind_ne_panic (ih _) (fun a => by obtain ⟨r, rest⟩ := a; simp)
       · split
         · simp
-        · exact Out.bind_ne_panic (ih _) (fun a => by obtain ⟨r, rest⟩ := a; simp)
+        · rw [if_neg (by omega)]
+          exact Out.bind_ne_panic (ih _) (fun a => by obtain ⟨r, rest⟩ := a; simp)
 
 theorem readParameterArray_no_panic (data : Bytes) : readParameterArray data ≠ .panic := by
+  have hc := countConv_params (data.take 2) (beVal_lt_of_le _ 2 (take_len_le _ _) (by decide))
   unfold readParameterArray
   split
   · simp
-  · exact readParamsArr_no_panic _ _
+  · simp only [hc]
+    rw [if_neg (by omega)]
+    exact readParamsArr_no_panic _ _
 
 theorem newBindPacket_no_panic (data : Bytes) : newBindPacket data ≠ .panic := by
   unfold newBindPacket
